@@ -7,13 +7,14 @@ CONSTANTS
   Big = 5000
   Kinds = {"fwd", "back"}
   Calls = {"none", "revert"}
-  Alts = {"none", "amt"}
+  Alts = {"none"}
   AckAlts = {"none", "ackcode"}
-  Proofs = {"ok", "otherkey"}
+  Proofs = {"ok"}
   Signers = {"relayer", "outsider"}
   Funds = 1000
   Fees = {0}
   WithRotate = FALSE
+  WithUpgradeRev = FALSE
   Delay = 1
   LimWhere <- AllLimWhere
   LimitSets <- NoLimits
